@@ -1128,6 +1128,18 @@ def gen_color(repo):
     out += 'def mapperRows : List (String × String) := [%s]\n\n' % ', '.join('("%s", "%s")' % (a, c) for a, _, c, _ in pairs)
     return out
 
+def gen_fitcrop(repo):
+    f = 'src/crop_box.rs'
+    with open(os.path.join(repo, f)) as fh:
+        src = fh.read()
+    m = re.search(r'pub fn fit_src_into_dst_size\((.*?)\) -> Self \{(.*?)\n    \}\n\}', src, re.S)
+    if not m:
+        raise TranslationError("CropBox::fit_src_into_dst_size not found")
+    body = re.sub(r'//[^\n]*', '', m.group(2))
+    out = '/-- %s: body of CropBox::fit_src_into_dst_size (comments stripped, whitespace normalised) -/\n' % f
+    out += 'def fitCropSource : String := "%s"\n\n' % ' '.join(body.split()).replace('"', '\\"')
+    return out
+
 def gen_sizes(repo):
     """Buffer-size expressions of the image constructors."""
     out = ''
@@ -1167,6 +1179,7 @@ GENERATORS = [
     ('Convert', gen_convert),
     ('CropF64', gen_cropf64),
     ('Color', gen_color),
+    ('FitCrop', gen_fitcrop),
 ]
 
 def write_if_changed(path, content):
